@@ -30,6 +30,7 @@ func (m *Machine) addPC(c *Term) {
 	}
 	m.pc = append(m.pc, c)
 	m.pcSet[c.ID] = true
+	m.noteConstraint(c)
 	if m.model != nil {
 		if m.hasUF(c) || m.ev.Eval(c) != 1 {
 			m.setModel(nil)
@@ -51,7 +52,7 @@ func (m *Machine) ensureModel() bool {
 	if m.model != nil {
 		return true
 	}
-	res, md := m.solver.Check(m.pc, true)
+	res, md := m.solver.Check(m.pc, nil, true)
 	switch res {
 	case Sat:
 		m.setModel(md)
@@ -91,10 +92,7 @@ func (m *Machine) evalUnderModel(t *Term) (uint64, bool) {
 }
 
 func (m *Machine) checkWith(extra ...*Term) (Result, Model) {
-	cs := make([]*Term, 0, len(m.pc)+len(extra))
-	cs = append(cs, m.pc...)
-	cs = append(cs, extra...)
-	return m.solver.Check(cs, true)
+	return m.solver.Check(m.pc, extra, true)
 }
 
 func (m *Machine) pushWork(dec Decision, md Model) {
@@ -137,6 +135,39 @@ func (m *Machine) branch(c *Term) bool {
 		return false
 	}
 	m.checkDecisionBudget()
+	if r, dv, vi, T, F := m.domDecide(c); r >= 0 {
+		switch {
+		case r == 1:
+			m.DomDecided++
+			m.trace = append(m.trace, Decision{'b', 1})
+			m.addPC(c)
+			return true
+		case r == 0:
+			m.DomDecided++
+			m.trace = append(m.trace, Decision{'b', 0})
+			m.addPC(nc)
+			return false
+		case !vi.entangled:
+			// both sides feasible, exactly: no solver needed
+			m.DomDecided++
+			side := uint64(1)
+			if m.model != nil {
+				if !T.has(m.model[dv.Name] & mask(dv.Sort.W)) {
+					side = 0
+				}
+			}
+			if side == 1 {
+				m.pushWork(Decision{'b', 0}, m.patchedModel(dv, F))
+				m.trace = append(m.trace, Decision{'b', 1})
+				m.addPC(c)
+				return true
+			}
+			m.pushWork(Decision{'b', 1}, m.patchedModel(dv, T))
+			m.trace = append(m.trace, Decision{'b', 0})
+			m.addPC(nc)
+			return false
+		}
+	}
 	if v, ok := m.evalUnderModel(c); ok {
 		// the side taken by the model is feasible for free; ask only about the other side
 		other := nc
@@ -382,6 +413,11 @@ func (m *Machine) assert(c *Term, label string) {
 		m.violation("assert", label, "assertion fails", m.model)
 		panic(pathEnd{"violation"})
 	}
+	if r, _, _, _, _ := m.domDecide(c); r == 1 {
+		m.out.Obligations++
+		m.addPC(c)
+		return
+	}
 	res, md := m.checkWith(nc)
 	switch res {
 	case Sat:
@@ -417,6 +453,20 @@ func (m *Machine) assume(c *Term) {
 	if v, ok := m.evalUnderModelNoSolve(c); ok && v == 1 {
 		m.addPC(c)
 		return
+	}
+	if r, dv, vi, T, _ := m.domDecide(c); r >= 0 {
+		switch {
+		case r == 1:
+			m.addPC(c)
+			return
+		case r == 0:
+			panic(pathEnd{"assume-false"})
+		case !vi.entangled:
+			md := m.patchedModel(dv, T)
+			m.setModel(md)
+			m.addPC(c)
+			return
+		}
 	}
 	res, md := m.checkWith(c)
 	switch res {
@@ -456,6 +506,7 @@ func (m *Machine) resetPath(h *HarnessSpec, item WorkItem) {
 	m.params = h.Params
 	m.notes = nil
 	m.envVars = nil
+	m.vinfo = map[int]*varInfo{}
 	m.threads = nil
 	m.curThread = nil
 	m.setModel(item.Model)
